@@ -19,7 +19,7 @@ RUN_WALL_WATCHDOG_S = 300.0
 TIERS = {
     "quick":    {"runs": 30000, "chunk": 12, "wall_cap_s": 80, "size": 0,
                  "det_sample_min": 12, "det_sample_frac": 0.003, "max_reports": 3, "shrink_candidates": 150},
-    "thorough": {"runs": 250000, "chunk": 24, "wall_cap_s": 1700, "size": 1,
+    "thorough": {"runs": 400000, "chunk": 24, "wall_cap_s": 1700, "size": 1,
                  "det_sample_min": 32, "det_sample_frac": 0.0005, "max_reports": 4, "shrink_candidates": 300,
                  "fresh_interpreter_check": True, "fresh_sample": 32},
 }
